@@ -173,6 +173,7 @@ def run(ctx: core.Ctx):
     finally:
         ctx.notes["oracle_queries"] = dlg.queries
         dlg.close()
+    core.acc_dispatch(ctx, ['linspace'])
     ctx.trusted += ["native model driver (Hdc/Model/Stats.lean at Float)", "SciPy special functions (digamma, gammainc, ndtri) as oracle for the model's parameters",
                     "harness/spi.py scipy_spi (independent evaluation of the definition)"]
 
